@@ -33,7 +33,7 @@ def units(tier):
 def meta(tier):
     return {
         "rule": "every term without bytes-like members of the named sets x every string of A(str) + wire texts of V(T) + malformed JSON + control / non-ASCII / look-alike strings "
-        "x the five carriers: the five outcomes are pairwise same or all raise; for collection / mapping / structured T and every wire value m, json.dumps(m) and repr(m) (in every carrier) "
+        "x the six carriers (str, bytes, bytearray, read-only and writable memoryview, memoryview of a slice of a larger buffer): the outcomes are pairwise same or all raise; for collection / mapping / structured T and every wire value m, json.dumps(m) and repr(m) (in every carrier) "
         "give the same result as m itself (or all raise); serdes.load / strload / decode against json.loads, literal_eval and identity; "
         "non-trivial = at least one carrier returned; distinct by (T, string, outcome)",
         "bounds": {"term_sets": SETS[tier], "w_r": WR[tier], "extra_strings": len(EXTRA)},
